@@ -162,6 +162,17 @@ func c09Shapes() []Shape {
 		return withImports(Prog(Pr(ACall("a", "A", L(0)), ACall("b", "B", L(1)))), Import{"a", "a.tsh"}, Import{"b", "b.tsh"}),
 			map[string]*Program{"a.tsh": a, "b.tsh": b, "c.tsh": c}
 	}, false)
+	add("diamond-shared-state", 3, func(cl []string) (*Program, map[string]*Program) {
+		c := Prog(hashMarker(cl[2], 2), Def("count", N(0)), Def("Label", S("c")),
+			Fn("Inc", nil, []Type{TInt}, Set("count", Op("+", V("count"), N(1))), Ret(V("count"))),
+			Fn("Tag", []ParamDecl{Pm("t", TString)}, []Type{TString}, Set("Label", Op("+", V("Label"), V("t"))), Ret(V("Label"))))
+		a := withImports(Prog(hashMarker(cl[0], 0), Def("first", ACall("c", "Inc")), Def("tag", ACall("c", "Tag", S("a"))),
+			Fn("A", []ParamDecl{Pm("v", TInt)}, []Type{TInt}, Ret(Op("+", Op("+", ACall("c", "Inc"), Op("*", V("first"), N(100))), V("v")))),
+			Fn("T", nil, []Type{TString}, Ret(Op("+", V("tag"), ACall("c", "Tag", S("A")))))), Import{"c", "c.tsh"})
+		b := withImports(Prog(hashMarker(cl[1], 1), Fn("B", nil, []Type{TInt}, Ret(ACall("c", "Inc")))), Import{"c", "c.tsh"})
+		return withImports(Prog(Pr(ACall("a", "A", L(0))), Pr(ACall("b", "B")), Pr(ACall("a", "A", N(0)), ACall("a", "T"))), Import{"a", "a.tsh"}, Import{"b", "b.tsh"}),
+			map[string]*Program{"a.tsh": a, "b.tsh": b, "c.tsh": c}
+	}, false)
 	add("same-file-two-aliases", 1, func(cl []string) (*Program, map[string]*Program) {
 		return withImports(Prog(Pr(ACall("x", "Hello", L(0)), ACall("y", "Hello", L(1)))), Import{"x", "h.tsh"}, Import{"y", "h.tsh"}),
 			map[string]*Program{"h.tsh": pubHello(cl[0], 0)}
